@@ -16,8 +16,22 @@ clusters are renamed by the model (rename does not touch the FAT).
 At the end of a history the model's image is decoded by Spec/Abs.abs and its root names are compared with the library's own `list`.
 Directly on the implementation, independent of the model: an operation the model covers must leave every page outside the root
 region byte-identical (after unmount) - the frame theorem C01_vol_frame evaluated on the device.
-A disagreement with the model is reported nofail=True (theorem_or_correspondence); a frame failure on the device is a failing
-input (replay = the script)."""
+RESPELL WITH A SECOND MATCH (D27, fixed by 7e5011a): the deterministic families of cdir_corr.RESPELL run here too, on whole
+devices (the aimed rename must answer AlreadyExists and leave every page as it was; theorem C03_vol_rename_keeps_wf_closed).
+Model-independent: the library's final listing must not show two long names equal under the executor's case folding.
+A disagreement with the model is reported nofail=True (theorem_or_correspondence); a frame failure on the device or a
+duplicate in the final listing is a failing input (replay = the script).
+
+SUB-DIRECTORY WITHOUT GROWTH (run_sub_stream; Model/VolChainDir.v, theorems C01_volchain_*): histories of create_file / remove /
+rename inside ONE sub-directory "sub" of the root (created by the library in the prelude; its chain is read from the model's
+decode of the library's pages), with few short names so that the directory stays inside its first cluster.  After every op
+(own mount .. unmount bracket) the whole device is compared with the model's image as above.  The chain model leaves out the
+write-back of the directory's own entry in its parent (modification stamp): the 32 bytes of that root slot are taken from the
+library's page (`poke`) before the comparison, and checked directly instead: the root region may change ONLY in that slot, and
+there only in the access-date / modification time / date fields (bytes 18-19, 22-25).  Directly on the device as well
+(independent of the model): every other byte outside the clusters of the directory's chain is unchanged - the frame theorem
+C01_volchain_frame.  An op the model declines ("na": the directory would grow, the entry owns clusters or is a directory)
+re-synchronises the model on the library's pages."""
 import hashlib
 import vlib, namelib, fatimg
 from vlib import hexs
@@ -161,8 +175,25 @@ def run_stream(rep, tier, seed):
         prelude, ops = gen_history(rng, nops, "root16" in conf[0])
         lines, pf, pp, marks, li = build_script(conf, prelude, ops)
         jobs.append((conf, prelude, ops, lines, pf, pp, marks, li))
+    # respell-with-a-second-match histories (D27): one per family, ending right after the aimed renames
+    nrespell = 0
+    for fi, fam in enumerate(cdir_corr.RESPELL):
+        conf = CONFS[fi % len(CONFS)]
+        rops, aimed = cdir_corr.respell_ops(fam, "")
+        ops = [("create" if o[0] == "create_file" else o[0],) + tuple(o[1:]) for o in rops[:max(aimed) + 1]]
+        lines, pf, pp, marks, li = build_script(conf, [], ops)
+        jobs.append((conf, [], ops, lines, pf, pp, marks, li))
+        nrespell += 1
     results = vlib.run_scripts([j[3] for j in jobs])
-    _, table = namelib.upper_table("default")
+    utable, table = namelib.upper_table("default")
+    ndup = 0
+    for ji, (conf, prelude, ops, lines, pf, pp, marks, li) in enumerate(jobs):
+        if results[ji][li].kind == "ok":
+            d = cdir_corr.dup_long(results[ji][li].extra, utable)
+            if d is not None:
+                ndup += 1
+                rep.violation("[cvol] %s: at the end of the history the root lists two entries whose long names are equal under case "
+                              "folding (%r and %r): duplicate names (C03 WDupLong; D27)" % (conf[0], d[0], d[1]), {"script": lines})
     resync_after = set()         # (job, op index): the model declined this op ("na") - it is re-synchronised on the library's pages
     geoms = []
     for ji, (conf, prelude, ops, lines, pf, pp, marks, li) in enumerate(jobs):
@@ -297,8 +328,234 @@ def run_stream(rep, tier, seed):
                               {"script": lines[:pi + 1]})
         rep.distinct(("cvol", conf[0], op[0], mtag, op[1:], lib.get(max(lib)) if lib else None))
     rep.cov["cvol_correspondence"] = {
-        "histories": nhist, "configs": [c[0] for c in CONFS[:min(nhist, len(CONFS))]], "ops_compared_whole_device": ncmp,
+        "histories": nhist + nrespell, "respell_second_match_histories_D27": nrespell, "duplicate_long_names_in_final_listing": ndup, "configs": [c[0] for c in CONFS[:min(nhist, len(CONFS))]], "ops_compared_whole_device": ncmp,
         "disagreements": nviol, "frame_failures_on_device": nframe, "declined_by_model_na": nna, "skipped_stale": nstale,
         "model_outcomes": kinds, "device_pages_compared": pages_total,
         "longest_model_only_chain_per_history": [chained[j][0] for j in sorted(chained)]}
+    nviol += run_sub_stream(rep, tier, seed)
+    return nviol
+
+
+# ---------------------------------------------------------------------------------------------------------------------------
+SUB_CONFS = [
+    ("fat12-400s-root32-sub", 400 * 512 + 4096, "512 400 512 12 32 2 - - -", 0xD1),
+    ("fat16-9000s-1k-clusters-root512-sub", 9000 * 512, "512 9000 1024 16 512 2 - - -", 0),
+    ("fat12-1k-sectors-root32-sub", 200 * 1024, "1024 200 1024 12 32 2 - - -", 0xFF),
+]
+SUB_NAMES = ["a", "B", "b", "file.txt", "File.TXT", "x" * 13, "straße", "é.x", "s s", "ß~1", "ss~1", "~tilde", "lower.c", "q.q"]
+SUB_SFN = b"SUB        "
+CORR_SUB = ("Model/VolChainDir.v vol_create_empty_file_chain / vol_remove_empty_file_chain / vol_rename_in_chain (model cvol ccreate / "
+            "cremove / crename; C01_volchain_frame, C01_volchain_create_decodes, C01_volchain_create_in_root_decodes_partial) vs "
+            "src/dir.rs + src/file.rs on the whole device image")
+
+
+def gen_sub_history(rng, nops):
+    live = []
+    ops = []
+    for _ in range(nops):
+        r = rng.below(100)
+        nm = rng.choice(SUB_NAMES) if rng.chance(94, 100) else rng.choice(BAD)
+        if nm == "":
+            nm = "bad:name"        # "sub/" is the path of the directory itself (split_path trims '/'): not a name of this layer
+        if r < 6:
+            ops.append(("clock", 1980 + rng.below(128), 1 + rng.below(12), 1 + rng.below(28), rng.below(24), rng.below(60), rng.below(60), rng.below(1000)))
+        elif r < 45 or not live:
+            ops.append(("create", nm)); live.append(nm)
+        elif r < 68:
+            t = rng.choice(live) if rng.chance(85, 100) else nm
+            if rng.chance(30, 100):
+                t = t.upper() if rng.chance(1, 2) else t.lower()
+            ops.append(("remove", t))
+            for x in [x for x in live if x.upper() == t.upper()]:
+                live.remove(x)
+        else:
+            s_ = rng.choice(live) if rng.chance(90, 100) else nm
+            how = rng.below(100)
+            d = nm if how < 55 else cdir_corr.case_variant(rng, s_) if how < 85 else rng.choice(live) if how < 95 else s_
+            ops.append(("rename", s_, d))
+            if s_ in live and d not in live and rng.chance(2, 3):
+                live.remove(s_); live.append(d)
+    return ops
+
+
+def build_sub_script(conf, ops):
+    name, dev, fmt, fill = conf
+    lines = ["dev %d %d" % (dev, fill), "wlog 0", "format " + fmt, "pages", "clock %d %d %d %d %d %d %d" % CLOCK0,
+             "mount 1 0 lossy", "create_dir 0 %s 1" % hexs("sub"), "drop_dir 1", "unmount", "pages"]
+    pp = len(lines) - 1
+    marks = []
+    h = 10
+    for op in ops:
+        if op[0] == "clock":
+            lines.append("clock %d %d %d %d %d %d %d" % op[1:]); marks.append((None, None)); continue
+        lines.append("mount 1 0 lossy")
+        if op[0] == "create":
+            lines.append("create_file 0 %s %d" % (hexs("sub/" + op[1]), h)); ri = len(lines) - 1
+            lines.append("drop_file %d" % h); h += 1
+        elif op[0] == "remove":
+            lines.append("remove 0 %s" % hexs("sub/" + op[1])); ri = len(lines) - 1
+        else:
+            lines.append("rename 0 %s 0 %s" % (hexs("sub/" + op[1]), hexs("sub/" + op[2]))); ri = len(lines) - 1
+        lines += ["unmount", "pages"]
+        marks.append((ri, len(lines) - 1))
+    lines += ["mount 1 0 lossy", "open_dir 0 %s 2" % hexs("sub"), "list 2", "unmount"]
+    return lines, 3, pp, marks, len(lines) - 2
+
+
+def dev_bytes(pages, fill, off, n):
+    """n bytes of the device at off, from a {page off: hex} map"""
+    out = bytearray()
+    while n > 0:
+        pg = off - off % 4096
+        h = pages.get(pg)
+        k = min(n, pg + 4096 - off)
+        out += bytes.fromhex(h[2 * (off - pg):2 * (off - pg + k)]) if h is not None else bytes([fill]) * k
+        off += k; n -= k
+    return bytes(out)
+
+
+def sub_slot_off(pages, fill, g):
+    """device offset of the root slot holding the short entry SUB, or None"""
+    root = dev_bytes(pages, fill, g.root_off, g.root_entries * 32)
+    for k in range(0, len(root), 32):
+        if root[k] == 0:
+            break
+        if root[k:k + 11] == SUB_SFN and root[k + 11] & 0x3f != 0x0f and root[k + 11] & 0x10:
+            return g.root_off + k
+    return None
+
+
+def run_sub_stream(rep, tier, seed):
+    rng = vlib.Rng(seed * 15485863 + 29)
+    nhist = 3 if tier == "quick" else 36
+    nops = 14 if tier == "quick" else 22
+    jobs = []
+    for i in range(nhist):
+        conf = SUB_CONFS[i % len(SUB_CONFS)]
+        ops = gen_sub_history(rng, nops)
+        lines, pf, pp, marks, li = build_sub_script(conf, ops)
+        jobs.append((conf, ops, lines, pf, pp, marks, li))
+    results = vlib.run_scripts([j[2] for j in jobs])
+    utable, table = namelib.upper_table("default")
+    # ---- model input: every op is predicted from the library's OWN previous pages (img), so one divergence does not cascade;
+    #      the chain of "sub" is looked up by the model in its decode of those pages
+    mlines = ["upper " + table]
+    plan = []
+    for ji, (conf, ops, lines, pf, pp, marks, li) in enumerate(jobs):
+        res = results[ji]
+        fill = conf[3]
+        if res[pp].kind != "ok" or 0 not in pages_of(res[pp]):
+            rep.violation("[cvol-sub] %s: the prelude (format, create_dir sub) failed" % conf[0],
+                          {"theorem_or_correspondence": CORR_SUB, "script": lines[:pp + 1]}, nofail=True)
+            continue
+        prev = pp
+        clock = CLOCK0
+        g = fatimg.Geom(bytes.fromhex(pages_of(res[pp])[0])[:64])
+        for oi, op in enumerate(ops):
+            ri, pi = marks[oi]
+            if op[0] == "clock":
+                clock = op[1:]; continue
+            if res[ri].kind in ("skipped", "bad", "hang", "panic") or res[pi].kind != "ok":
+                break
+            before, after = pages_of(res[prev]), pages_of(res[pi])
+            mlines.append(img_line(fill, before)); plan.append(None)
+            mlines.append("cdir " + SUB_SFN.hex()); plan.append(None)
+            if op[0] == "create":
+                mlines.append("ccreate %s %d %d %d %d %d %d %d" % ((hexs(op[1]),) + tuple(clock)))
+            elif op[0] == "remove":
+                mlines.append("cremove %s" % hexs(op[1]))
+            else:
+                mlines.append("crename %s %s" % (hexs(op[1]), hexs(op[2])))
+            plan.append(None)
+            so = sub_slot_off(after, fill, g)
+            mlines.append("poke %d %s" % (so if so is not None else g.root_off, dev_bytes(after, fill, so, 32).hex() if so is not None else ""))
+            plan.append((ji, oi, prev, g, so))
+            prev = pi
+    out = vlib.model_run("cvol", "\n".join(mlines) + "\n")[1:]
+    assert len(out) == len(plan), (len(out), len(plan))
+    ncmp = nviol = nna = nframe = nstamp = 0
+    kinds = {}
+    for k, pl in enumerate(plan):
+        if pl is None:
+            continue
+        ji, oi, prev, g, so = pl
+        conf, ops, lines, pf, pp, marks, li = jobs[ji]
+        res = results[ji]
+        fill = conf[3]
+        op = ops[oi]
+        ri, pi = marks[oi]
+        ir = res[ri]
+        rep.count()
+        chain_line, mo, po = out[k - 2].split(" "), out[k - 1].split(" "), out[k].split(" ")
+        itag = "ok" if ir.kind == "ok" else (ir.kind + " " + ir.payload.split()[0] if ir.payload else ir.kind)
+        if chain_line[0] != "ok":
+            nviol += 1
+            rep.violation("[cvol-sub] %s: the model's decode of the library's device does not show the directory SUB in the root" % conf[0],
+                          {"theorem_or_correspondence": CORR_SUB, "script": lines[:pi + 1]}, nofail=True)
+            continue
+        chain = [int(x) for x in chain_line[1].split(",")]
+        before, after = pages_of(res[prev]), pages_of(res[pi])
+        # ---- directly on the device (independent of the model): the frame of an operation inside the directory
+        if so is not None:
+            lo = [g.cluster_off(c) for c in chain]
+            bad = None
+            blank = "%02x" % fill * 4096
+            for o in sorted(set(before) | set(after)):
+                a, b = before.get(o, blank), after.get(o, blank)
+                if a == b:
+                    continue
+                for i in range(4096):
+                    if a[2 * i:2 * i + 2] != b[2 * i:2 * i + 2]:
+                        x = o + i
+                        if any(c0 <= x < c0 + g.cluster_size for c0 in lo):
+                            continue
+                        if so <= x < so + 32 and (x - so) in (18, 19, 22, 23, 24, 25):
+                            nstamp += 1
+                            continue
+                        bad = x
+                        break
+                if bad is not None:
+                    break
+            if bad is not None and mo[0] != "na":
+                nframe += 1
+                rep.violation("[cvol-sub] %s: %s %r inside the directory sub (chain %s, no growth) changed device byte %d, which lies neither "
+                              "in a cluster of the directory nor in the time-stamp fields of its own entry in the root (slot at %d)"
+                              % (conf[0], op[0], op[1:], chain, bad, so), {"script": lines[:pi + 1]})
+        if mo[0] == "na":
+            nna += 1
+            kinds["na (would grow / entry owns clusters / is a directory)"] = kinds.get("na (would grow / entry owns clusters / is a directory)", 0) + 1
+            continue
+        ncmp += 1
+        if mo[0] == "ok" and op[0] == "create":
+            mtag = "ok"
+        elif mo[0] in ("ok", "exists"):
+            mtag = "ok"
+        elif mo[0] == "err":
+            mtag = "err " + mo[1]
+        else:
+            mtag = mo[0]
+        kinds[op[0] + " " + (mo[0] if mo[0] != "err" else mtag)] = kinds.get(op[0] + " " + (mo[0] if mo[0] != "err" else mtag), 0) + 1
+        lib = md5s(after)
+        mod = parse_digest(po[1:])
+        if mtag != itag or lib != mod:
+            nviol += 1
+            diff = sorted(o for o in set(lib) | set(mod) if lib.get(o) != mod.get(o))
+            if nviol <= 3:
+                rep.violation("[cvol-sub] %s: model and implementation disagree on %s %r inside the directory sub: outcome model %s / library %s; "
+                              "%d device page(s) differ%s" % (conf[0], op[0], op[1:], mtag, itag, len(diff), (" (first at offset %d)" % diff[0]) if diff else ""),
+                              {"theorem_or_correspondence": CORR_SUB, "script": lines[:pi + 1]}, nofail=True)
+            continue
+        rep.distinct(("cvol-sub", conf[0], op[0], mtag, op[1:], lib.get(max(lib)) if lib else None))
+    ndup = 0
+    for ji, (conf, ops, lines, pf, pp, marks, li) in enumerate(jobs):
+        if results[ji][li].kind == "ok":
+            d = cdir_corr.dup_long(results[ji][li].extra, utable)
+            if d is not None:
+                ndup += 1
+                rep.violation("[cvol-sub] %s: at the end of the history the directory sub lists two entries whose long names are equal under "
+                              "case folding (%r and %r)" % (conf[0], d[0], d[1]), {"script": lines})
+    rep.cov["cvol_subdirectory_correspondence"] = {
+        "histories": nhist, "configs": [c[0] for c in SUB_CONFS[:min(nhist, len(SUB_CONFS))]], "ops_compared_whole_device": ncmp,
+        "disagreements": nviol, "frame_failures_on_device": nframe, "declined_by_model_na": nna, "model_outcomes": kinds,
+        "parent_stamp_bytes_changed_by_library": nstamp, "duplicate_long_names_in_final_listing": ndup}
     return nviol
